@@ -849,6 +849,14 @@ def _patch_attributes(func: FunctionType, fields: list[str], start: int = 0) -> 
     )
 
 
+def _field_default(field: Field) -> Any:
+    default = field.type.__default__()
+    if field.bits and isinstance(default, bytes):
+        # A bit field holds an integer, also when its storage type is a character type
+        return 0
+    return default
+
+
 def _generate_structure__init__(fields: list[Field]) -> FunctionType:
     """Generates an ``__init__`` method for a structure with the specified fields.
 
@@ -860,7 +868,7 @@ def _generate_structure__init__(fields: list[Field]) -> FunctionType:
     template: FunctionType = _make_structure__init__(len(field_names))
     return type(template)(
         template.__code__.replace(
-            co_consts=(None, *[field.type.__default__() for field in fields]),
+            co_consts=(None, *[_field_default(field) for field in fields]),
             co_names=(*field_names,),
             co_varnames=("self", *field_names),
         ),
@@ -882,7 +890,7 @@ def _generate_union__init__(fields: list[Field]) -> FunctionType:
         template.__code__.replace(
             co_consts=(
                 None,
-                *sum([(field._name, field.type.__default__()) for field in fields], ()),
+                *sum([(field._name, _field_default(field)) for field in fields], ()),
             ),
             co_varnames=("self", *field_names),
         ),
